@@ -44,11 +44,29 @@ def replay_c15(r):
 
 
 def _known_5xx(method, route, body, query, resp):
-    """Witness patterns of the known findings (see known_findings.json)."""
+    """Witness patterns of the known findings that only the bounded stand-in
+    reaches (see known_findings.json); returns the finding id."""
     q = query or ''
-    if 'resources=' in q and any(len(t) > 18 for t in q.replace(',', ':').split(':')):
-        return True                                   # F9
-    return False
+    if 'resources=' in q and any(t.isdigit() and len(t) > 18
+                                 for t in q.replace(',', ':').replace('&', ':').split(':')):
+        return 'F9'
+    if route == '/allocation_candidates' and q.count('limit=') > 1:
+        first = q.split('limit=')[1].split('&')[0]
+        if not first.isdigit() or int(first) < 1:
+            return 'F11'
+    if (route.endswith('/inventories') and method == 'PUT') or route == '/reshaper':
+        def bad(inv):
+            return isinstance(inv, dict) and any(
+                not isinstance(v, dict) for k, v in inv.items()
+                if not (k.replace('_', '').isalnum() and k.upper() == k))
+        b = body if isinstance(body, dict) else {}
+        if bad(b.get('inventories')):
+            return 'F12'
+        if route == '/reshaper' and isinstance(b.get('inventories'), dict) and any(
+                isinstance(x, dict) and bad(x.get('inventories'))
+                for x in b['inventories'].values()):
+            return 'F12'
+    return None
 
 
 def fuzz_c15():
@@ -94,6 +112,7 @@ def build(tier, seed):
                 'placement/handlers/util.py:_get_or_create_user'])
     common.contract_crosschecks(chk, 'C15')
     chk.replayer('C15.T.', replay_c15)
+    chk.replayer('C15.C.ensure_consumer', replay_c15)
     chk.fallback('B1.c15.corpus_mutation', fuzz_c15,
                  'structure-level mutants of one valid request per operation '
                  '(<= 40 bodies + 22 query strings each) at microversions '
